@@ -44,11 +44,14 @@ import (
 	"github.com/nuts-foundation/go-did/did"
 	"github.com/nuts-foundation/go-did/vc"
 	"github.com/nuts-foundation/nuts-node/audit"
+	"github.com/nuts-foundation/nuts-node/core"
 	nutsCrypto "github.com/nuts-foundation/nuts-node/crypto"
 	"github.com/nuts-foundation/nuts-node/crypto/storage/spi"
 	"github.com/nuts-foundation/nuts-node/jsonld"
 	"github.com/nuts-foundation/nuts-node/storage"
 	testio "github.com/nuts-foundation/nuts-node/test/io"
+	"github.com/nuts-foundation/nuts-node/vcr"
+	vcrapi "github.com/nuts-foundation/nuts-node/vcr/api/vcr/v2"
 	"github.com/nuts-foundation/nuts-node/vcr/credential"
 	"github.com/nuts-foundation/nuts-node/vcr/holder"
 	"github.com/nuts-foundation/nuts-node/vcr/issuer"
@@ -233,7 +236,32 @@ func (h *c01HTTP) Do(req *http.Request) (*http.Response, error) {
 	return resp(200, body)
 }
 
+// c01FaultStore wraps the verifier node's revocation store; when `fail` is set it cannot answer
+type c01FaultStore struct {
+	verifier.Store
+	fail bool
+}
+
+func (f *c01FaultStore) GetRevocations(id ssi.URI) ([]*credential.Revocation, error) {
+	if f.fail {
+		return nil, errors.New("verif-store-down")
+	}
+	return f.Store.GetRevocations(id)
+}
+
+var _ core.Diagnosable = (*c01FaultStore)(nil)
+
+// c01VCR is just enough of vcr.VCR for the REST API wrapper's verify handlers
+type c01VCR struct {
+	vcr.VCR
+	n *c01Nodes
+}
+
+func (v c01VCR) Verifier() verifier.Verifier { return v.n.ver }
+
 type c01Nodes struct {
+	fstore     *c01FaultStore
+	iver       verifier.Verifier
 	vstore     verifier.Store
 	kr         resolver.KeyResolver
 	vTrustFile string
@@ -289,7 +317,9 @@ func c01Class(err error) string {
 func c01Msg(s string) string {
 	has := func(x string) bool { return strings.Contains(s, x) }
 	switch {
-	case has("presenter is credential subject"):
+	case has("verif-store-down"):
+		return "store-error"
+	case has("presenter is credential subject"), has("cannot determine subject of VP"):
 		return "vp-subject-error"
 	case has("credential(s) must be presented by subject"):
 		return "vp-not-by-subject"
@@ -774,12 +804,22 @@ type c01Call struct {
 	checkSig       bool // vc: checkSignature; vp: verifyVCs
 	label, base    string
 	mut, path      string
+	via            string // "" = verifier.Verify / VerifyVP directly, "api" = the REST API wrapper's handlers
+	option         *bool  // api: allowUntrustedIssuer (vc) / verifyCredentials (vp)
 }
 
 func (n *c01Nodes) run(o *c01Out, c c01Call) string {
 	tb := &c01Tables{urls: map[string]any{}, dids: map[string]any{}}
 	op := map[string]any{"op": c.kind, "label": c.label, "base": c.base, "mut": c.mut, "path": c.path,
-		"allowUntrusted": c.allowUntrusted, "checkSig": c.checkSig}
+		"allowUntrusted": c.allowUntrusted, "checkSig": c.checkSig, "now": time.Now().UnixMilli(), "storeFails": n.fstore.fail}
+	if c.via != "" {
+		op["via"] = c.via
+		op["option"] = nil
+		if c.option != nil {
+			op["option"] = *c.option
+		}
+	}
+	api := vcrapi.Wrapper{VCR: c01VCR{n: n}}
 	var at *time.Time
 	if c.at != nil {
 		t := time.Unix(*c.at, 0)
@@ -805,7 +845,28 @@ func (n *c01Nodes) run(o *c01Out, c c01Call) string {
 				return
 			}
 			op["doc"] = n.w.viewVC(*cred, tb)
-			err = n.ver.Verify(*cred, c.allowUntrusted, c.checkSig, at)
+			if c.via == "api" {
+				req := vcrapi.VerifyVCRequestObject{Body: &vcrapi.VerifyVCJSONRequestBody{VerifiableCredential: *cred}}
+				if c.option != nil {
+					req.Body.VerificationOptions = &vcrapi.VCVerificationOptions{AllowUntrustedIssuer: c.option}
+				}
+				resp, herr := api.VerifyVC(n.w.ctx, req)
+				err = herr
+				op["apiStatus"] = "error"
+				if r, ok := resp.(vcrapi.VerifyVC200JSONResponse); ok && herr == nil {
+					op["apiStatus"] = "200"
+					op["apiValidity"] = r.Validity
+					if !r.Validity {
+						msg := "invalid without message"
+						if r.Message != nil {
+							msg = *r.Message
+						}
+						err = errors.New(msg)
+					}
+				}
+			} else {
+				err = n.ver.Verify(*cred, c.allowUntrusted, c.checkSig, at)
+			}
 			if err != nil && os.Getenv("VERIF_DEBUG") != "" {
 				op["err"] = err.Error()
 			}
@@ -818,7 +879,33 @@ func (n *c01Nodes) run(o *c01Out, c c01Call) string {
 				return
 			}
 			op["doc"] = n.w.viewVP(*vp, tb)
-			got, err := n.ver.VerifyVP(*vp, c.checkSig, c.allowUntrusted, at)
+			var got []vc.VerifiableCredential
+			if c.via == "api" {
+				req := vcrapi.VerifyVPRequestObject{Body: &vcrapi.VerifyVPJSONRequestBody{VerifiablePresentation: *vp, VerifyCredentials: c.option}}
+				if at != nil {
+					s := at.UTC().Format(time.RFC3339)
+					req.Body.ValidAt = &s
+				}
+				resp, herr := api.VerifyVP(n.w.ctx, req)
+				err = herr
+				op["apiStatus"] = "error"
+				if r, ok := resp.(vcrapi.VerifyVP200JSONResponse); ok && herr == nil {
+					op["apiStatus"] = "200"
+					op["apiValidity"] = r.Validity
+					if r.Validity && r.Credentials != nil {
+						got = *r.Credentials
+					}
+					if !r.Validity {
+						msg := "invalid without message"
+						if r.Message != nil {
+							msg = *r.Message
+						}
+						err = errors.New(msg)
+					}
+				}
+			} else {
+				got, err = n.ver.VerifyVP(*vp, c.checkSig, c.allowUntrusted, at)
+			}
 			if err != nil && os.Getenv("VERIF_DEBUG") != "" {
 				op["err"] = err.Error()
 			}
@@ -1247,7 +1334,8 @@ func newC01Nodes(t *testing.T) *c01Nodes {
 	}
 	vTrust := trust.NewConfig(path.Join(dir, "vtrust.yaml"))
 	httpStub := &c01HTTP{zero: map[string]string{}}
-	ver := verifier.NewVerifier(vstore, w, kr, w.ldm, vTrust, revocation.NewStatusList2021(vEng.GetSQLDatabase(), httpStub, ""))
+	fstore := &c01FaultStore{Store: vstore}
+	ver := verifier.NewVerifier(fstore, w, kr, w.ldm, vTrust, revocation.NewStatusList2021(vEng.GetSQLDatabase(), httpStub, ""))
 	// issuer node
 	storage.AddDIDtoSQLDB(t, idb, did.MustParseDID(didI), did.MustParseDID(didJ), did.MustParseDID(didH), did.MustParseDID(didD))
 	istore, err := issuer.NewStore(idb, path.Join(dir, "is.db"), storage.CreateTestBBoltStore(t, path.Join(dir, "isb.db")))
@@ -1264,7 +1352,7 @@ func newC01Nodes(t *testing.T) *c01Nodes {
 	iver := verifier.NewVerifier(ivstore, w, kr, w.ldm, iTrust, revocation.NewStatusList2021(idb, nil, ""))
 	wallet := holder.NewSQLWallet(kr, w.ks, iver, w.ldm, iEng)
 	n := &c01Nodes{w: w, ver: ver, vTrust: vTrust, iss: iss, pub: pub, wallet: wallet, http: httpStub, vdb: vEng.GetSQLDatabase(),
-		vstore: vstore, kr: kr, vTrustFile: path.Join(dir, "vtrust.yaml")}
+		vstore: fstore, fstore: fstore, iver: iver, kr: kr, vTrustFile: path.Join(dir, "vtrust.yaml")}
 	httpStub.n = n
 	return n
 }
@@ -1550,12 +1638,243 @@ func (n *c01Nodes) generate(o *c01Out, rnd *rand.Rand, thorough bool) {
 		}
 		n.run(o, c01Call{kind: b.kind, text: b.text, at: &t, allowUntrusted: rnd.Intn(2) == 0, checkSig: rnd.Intn(6) != 0, label: b.label + "@rt", base: b.label, mut: "time", path: strconv.FormatInt(t-c01T0, 10)})
 	}
+	// 2f. sibling entry points and edges (API handlers, wallet, store failure, tampered revocations); uses the current time
+	defer n.auditLegs(o, rnd, creds)
 	// 2e. hand-edited trust files, untrust, restart
 	n.trustScenario(o, rnd, bases, thorough)
 	// 2d. Issue on accepted and refused templates
 	n.issueScenario(o, rnd)
 	// 3. time / key-history / trust / revocation scan on the unmodified documents
 	n.scan(o, rnd, bases, thorough)
+}
+
+// auditLegs: the sibling entry points and edges of the same clauses — the REST API handlers (POST /internal/vcr/v2/verifier/vc
+// and /vp: which flags they pass, how they turn errors into `validity`), the wallet (List filter, BuildPresentation with
+// validateVC), a revocation store that cannot answer, tampered revocations offered to RegisterRevocation.
+func (n *c01Nodes) auditLegs(o *c01Out, rnd *rand.Rand, creds map[string]string) {
+	nowS := time.Now().Unix()
+	n.w.asOf = nowS * 1000
+	n.emitWorld(o)
+	u := ssi.MustParseURI
+	tm := n.templates()
+	noExp := func(t vc.VerifiableCredential) vc.VerifiableCredential { t.ExpirationDate = nil; return t }
+	humanJ := tm["human"]
+	humanJ.Issuer = u(didJ)
+	fresh := map[string]string{}
+	for name, t := range map[string]vc.VerifiableCredential{"org": noExp(tm["org"]), "humanJ": humanJ, "human": tm["human"]} {
+		for _, f := range []string{vc.JSONLDCredentialProofFormat, vc.JWTCredentialProofFormat} {
+			fresh[name+":"+f] = n.issue(t, f, nowS-100)
+		}
+	}
+	n.w.asOf = nowS * 1000
+	tamper := func(text string) string {
+		if strings.HasPrefix(text, "{") {
+			var m map[string]any
+			_ = json.Unmarshal([]byte(text), &m)
+			m["credentialSubject"].(map[string]any)["id"] = didO
+			return mustJSON(m)
+		}
+		h, p, sg, _ := jwtParts(text)
+		p["sub"] = didO
+		return jwtJoin(h, p, sg)
+	}
+	tr, fl := true, false
+	names := make([]string, 0, len(fresh))
+	for k := range fresh {
+		names = append(names, k)
+	}
+	sort.Strings(names)
+	apiVC := func(tag string) {
+		for _, k := range names {
+			for _, v := range []struct {
+				tag, text string
+			}{{"genuine", fresh[k]}, {"tampered", tamper(fresh[k])}} {
+				for _, opt := range []*bool{nil, &tr, &fl} {
+					ot := "default"
+					if opt != nil {
+						ot = strconv.FormatBool(*opt)
+					}
+					lbl := "api-vc:" + k + ":" + v.tag + ":" + tag + ":opt=" + ot
+					n.run(o, c01Call{kind: "vc", text: v.text, label: lbl, base: lbl, mut: "api:" + v.tag, path: tag, via: "api", option: opt, checkSig: true})
+				}
+			}
+		}
+	}
+	apiVC("trusted")
+	n.setTrust(o, "NutsOrganizationCredential", didI, false)
+	n.setTrust(o, "HumanCredential", didI, false)
+	apiVC("untrusted")
+	// presentations through the API: signer did:web (trust of credential issuers not required), genuine / carrying a tampered credential
+	hd := didH
+	exp := nowS + 3600
+	self := mustJSON(map[string]any{"@context": []any{ctxVC}, "id": didH + "#self-api", "type": []any{"VerifiableCredential"},
+		"issuer": didH, "issuanceDate": time.Unix(nowS-100, 0).UTC().Format(time.RFC3339), "credentialSubject": map[string]any{"id": didH}})
+	forgedLD := func() string {
+		var m map[string]any
+		_ = json.Unmarshal([]byte(fresh["org:ldp_vc"]), &m)
+		m["credentialSubject"].(map[string]any)["organization"].(map[string]any)["name"] = "Forged"
+		return mustJSON(m)
+	}()
+	for _, f := range []string{holder.JSONLDPresentationFormat, holder.JWTPresentationFormat} {
+		for _, v := range []struct {
+			tag   string
+			creds []string
+		}{{"genuine", []string{fresh["org:ldp_vc"], fresh["humanJ:jwt_vc"]}}, {"self+forged", []string{self, forgedLD}}, {"forged", []string{forgedLD}}} {
+			text := n.present(v.creds, f, didH, &hd, nowS-80, &exp, true)
+			n.w.asOf = nowS * 1000
+			for _, opt := range []*bool{nil, &tr, &fl} {
+				ot := "default"
+				if opt != nil {
+					ot = strconv.FormatBool(*opt)
+				}
+				for _, at := range []*int64{nil, p64(nowS - 10), p64(nowS + 7200)} {
+					ats := "now"
+					if at != nil {
+						ats = strconv.FormatInt(*at-nowS, 10)
+					}
+					lbl := "api-vp:" + f + ":" + v.tag + ":verifyCredentials=" + ot + ":at=" + ats
+					n.run(o, c01Call{kind: "vp", text: text, at: at, label: lbl, base: lbl, mut: "api:" + v.tag, path: ats, via: "api", option: opt,
+						checkSig: opt == nil || *opt, allowUntrusted: true})
+				}
+			}
+		}
+	}
+	n.setTrust(o, "NutsOrganizationCredential", didI, true)
+	n.setTrust(o, "HumanCredential", didI, true)
+
+	// the revocation store cannot answer: nothing is reported valid (credentials with an id), directly and through the API
+	n.fstore.fail = true
+	at := nowS
+	for _, k := range names {
+		lbl := "store-down:" + k
+		n.run(o, c01Call{kind: "vc", text: fresh[k], at: &at, allowUntrusted: true, checkSig: true, label: lbl, base: lbl, mut: "store-down"})
+		n.run(o, c01Call{kind: "vc", text: fresh[k], label: "api-" + lbl, base: "api-" + lbl, mut: "store-down", via: "api", checkSig: true})
+	}
+	n.fstore.fail = false
+
+	// tampered revocations offered to RegisterRevocation: other subject, other issuer, signed by another party, vm of another party
+	before := len(n.pub.revs)
+	victim, _ := vc.ParseVerifiableCredential(fresh["human:ldp_vc"])
+	other, _ := vc.ParseVerifiableCredential(fresh["org:ldp_vc"])
+	n.w.asOf = time.Now().UnixMilli()
+	if _, err := n.iss.Revoke(n.w.ctx, *other.ID); err != nil || len(n.pub.revs) != before+1 {
+		n.w.t.Fatalf("audit: revoke: %v", err)
+	}
+	genuine := n.pub.revs[before]
+	revJSON, _ := json.Marshal(genuine)
+	toRev := func(m map[string]any) credential.Revocation {
+		b, _ := json.Marshal(m)
+		var r credential.Revocation
+		_ = json.Unmarshal(b, &r)
+		return r
+	}
+	base := func(f func(m map[string]any)) map[string]any {
+		var m map[string]any
+		_ = json.Unmarshal(revJSON, &m)
+		f(m)
+		return m
+	}
+	resign := func(m map[string]any, kid string) map[string]any {
+		delete(m, "proof")
+		signed, err := proof.NewLDProof(proof.ProofOptions{Created: time.Now()}).Sign(n.w.ctx, m, signature.JSONWebSignature2020{ContextLoader: n.w.loader, Signer: n.w.ks}, kid)
+		if err != nil {
+			n.w.t.Fatal(err)
+		}
+		b, _ := json.Marshal(signed)
+		var r map[string]any
+		_ = json.Unmarshal(b, &r)
+		return r
+	}
+	tampered := []struct {
+		tag string
+		rev credential.Revocation
+	}{
+		{"other-subject-old-proof", toRev(base(func(m map[string]any) { m["subject"] = victim.ID.String() }))},
+		{"date-changed", toRev(base(func(m map[string]any) { m["date"] = time.Now().Add(-time.Hour).UTC().Format(time.RFC3339) }))},
+		{"signed-by-other-party", toRev(resign(base(func(m map[string]any) { m["subject"] = victim.ID.String() }), didO+"#k1"))},
+		{"issued-by-other-party", toRev(resign(base(func(m map[string]any) { m["subject"] = victim.ID.String(); m["issuer"] = didO }), didO+"#k1"))},
+		{"other-party-key-claims-issuer-vm", toRev(func() map[string]any {
+			r2 := resign(base(func(m map[string]any) { m["subject"] = victim.ID.String() }), didO+"#k1")
+			r2["proof"].(map[string]any)["verificationMethod"] = didI + "#k2"
+			return r2
+		}())},
+	}
+	for _, tc := range tampered {
+		line := "revocation:rejected"
+		if n.ver.RegisterRevocation(tc.rev) == nil {
+			line = "revocation:ok"
+		}
+		o.emit(map[string]any{"op": "expect", "label": "tampered-revocation:" + tc.tag, "expect": "revocation:rejected", "kind": "tampered-revocation"}, line)
+	}
+	// ... so the victim is still valid, and the genuinely revoked credential is revoked once the genuine revocation is registered
+	n.run(o, c01Call{kind: "vc", text: fresh["human:ldp_vc"], at: &at, allowUntrusted: true, checkSig: true, label: "victim-after-tampered-revocations", base: "victim-after-tampered-revocations"})
+	line := "revocation:rejected"
+	if n.ver.RegisterRevocation(genuine) == nil {
+		line = "revocation:ok"
+	}
+	o.emit(map[string]any{"op": "revoke", "id": other.ID.String(), "registered": line == "revocation:ok"}, line)
+	n.run(o, c01Call{kind: "vc", text: fresh["org:ldp_vc"], at: &at, allowUntrusted: true, checkSig: true, label: "revoked-after-genuine-revocation", base: "revoked-after-genuine-revocation", mut: "revoked"})
+
+	// the wallet on the issuer node: List keeps only what is inside its window and not revoked (signatures are not checked there);
+	// BuildPresentation(validateVC) refuses credentials whose signature does not verify
+	if err := n.iver.RegisterRevocation(genuine); err != nil {
+		n.w.t.Fatalf("audit: issuer node RegisterRevocation: %v", err)
+	}
+	future := n.issue(noExp(tm["org"]), vc.JSONLDCredentialProofFormat, nowS+7200)
+	n.w.asOf = nowS * 1000
+	stored := []string{fresh["human:ldp_vc"], fresh["human:jwt_vc"], fresh["humanJ:ldp_vc"], fresh["org:ldp_vc"] /* revoked */, fresh["org:jwt_vc"],
+		creds["org:ldp_vc"] /* expired in 2023 */, creds["plain:jwt_vc"] /* expired */, future}
+	var parsed []vc.VerifiableCredential
+	tb := &c01Tables{urls: map[string]any{}, dids: map[string]any{}}
+	var views []any
+	for _, text := range stored {
+		c, err := vc.ParseVerifiableCredential(text)
+		if err != nil {
+			n.w.t.Fatal(err)
+		}
+		parsed = append(parsed, *c)
+		views = append(views, n.w.viewVC(*c, tb))
+	}
+	if err := n.wallet.Put(n.w.ctx, parsed...); err != nil {
+		n.w.t.Fatalf("audit: wallet.Put: %v", err)
+	}
+	listed, err := n.wallet.List(n.w.ctx, did.MustParseDID(didH))
+	if err != nil {
+		n.w.t.Fatalf("audit: wallet.List: %v", err)
+	}
+	var ids []string
+	for _, c := range listed {
+		ids = append(ids, c.ID.String())
+	}
+	sort.Strings(ids)
+	o.emit(map[string]any{"op": "wallet-list", "label": "wallet-list", "creds": views, "revoked": []string{other.ID.String()}, "lists": []any{},
+		"now": time.Now().UnixMilli(), "urls": tb.urls, "dids": tb.dids}, "wallet:"+strings.Join(ids, ","))
+	for _, v := range []struct {
+		tag   string
+		texts []string
+	}{{"genuine", []string{fresh["human:ldp_vc"], fresh["humanJ:jwt_vc"]}}, {"one-tampered", []string{fresh["human:ldp_vc"], tamper(fresh["humanJ:ldp_vc"])}},
+		{"tampered-jwt-last", []string{fresh["human:jwt_vc"], fresh["humanJ:ldp_vc"], tamper(fresh["humanJ:jwt_vc"])}}} {
+		var l []vc.VerifiableCredential
+		tb := &c01Tables{urls: map[string]any{}, dids: map[string]any{}}
+		var vs []any
+		for _, t := range v.texts {
+			c, err := vc.ParseVerifiableCredential(t)
+			if err != nil {
+				n.w.t.Fatal(err)
+			}
+			l = append(l, *c)
+			vs = append(vs, n.w.viewVC(*c, tb))
+		}
+		created := time.Unix(nowS-50, 0).UTC()
+		signer := did.MustParseDID(didH)
+		_, err := n.wallet.BuildPresentation(n.w.ctx, l, holder.PresentationOptions{ProofOptions: proof.ProofOptions{Created: created}}, &signer, true)
+		line := "ok"
+		if err != nil {
+			line = "err:invalid-credential"
+		}
+		o.emit(map[string]any{"op": "wallet-present", "label": "wallet-present:" + v.tag, "creds": vs, "created": created.UnixMilli(),
+			"now": time.Now().UnixMilli(), "urls": tb.urls, "dids": tb.dids, "expectOK": v.tag == "genuine"}, line)
+	}
 }
 
 // issueScenario: the real issuer.Issue on accepted and refused templates (both formats); the model's `issue` must agree on
@@ -2178,6 +2497,13 @@ func (n *c01Nodes) replay(o *c01Out, file string, prefix string) {
 			c.checkSig, _ = op["checkSig"].(bool)
 			if f, ok := op["at"].(float64); ok {
 				c.at = p64(int64(f) / 1000)
+			}
+			c.via = str("via")
+			if b, ok := op["option"].(bool); ok {
+				c.option = &b
+			}
+			if sf, ok := op["storeFails"].(bool); ok {
+				n.fstore.fail = sf
 			}
 			n.run(o, c)
 		}
